@@ -18,3 +18,6 @@ CONSTANTS
   SAMPLE = 47
   STREAMLEN = 0
   TWOCOLOURS = TRUE
+  RING = 1
+  FILTERED = TRUE
+  STOREORIENT = TRUE
